@@ -129,6 +129,7 @@ func checkC05(r *core.Run) {
 		}
 		fn = next
 	}
+	rmReplyChecked(r, "C05.before")
 	// ---------------- register step: parameters
 	if regFn == nil {
 		r.Anchor("C05.param", nil, "registration step of the TCC proxy")
@@ -525,4 +526,55 @@ func constsReferenced(f *core.FuncInfo) []string {
 		return true
 	})
 	return out
+}
+
+// rmReplyChecked: RMRemoting.BranchRegister answers a nil error only when a response arrived (the value returned
+// by the request is known non-nil on that path) — a request that completes with neither error nor response must
+// not count as a registered branch.
+func rmReplyChecked(r *core.Run, rule string) {
+	w := r.W
+	rt := w.NamedType("pkg/rm", "RMRemoting")
+	f := methodInfo(w, rt, "BranchRegister")
+	if r.Anchor(rule, f, "rm.RMRemoting.BranchRegister") == nil {
+		return
+	}
+	info := f.Pkg.TypesInfo
+	// the variable holding the reply of the request
+	var resp *ast.Ident
+	ast.Inspect(f.Decl.Body, func(n ast.Node) bool {
+		as, ok := n.(*ast.AssignStmt)
+		if !ok || len(as.Lhs) != 2 || len(as.Rhs) != 1 {
+			return true
+		}
+		if c, ok := ast.Unparen(as.Rhs[0]).(*ast.CallExpr); ok && isSendSync(core.Callee(info, c)) {
+			if id, ok := as.Lhs[0].(*ast.Ident); ok {
+				resp = id
+			}
+		}
+		return true
+	})
+	if resp != nil {
+		// facts are looked up through a using occurrence of the variable
+		def := info.Defs[resp]
+		resp = nil
+		ast.Inspect(f.Decl.Body, func(n ast.Node) bool {
+			if id, ok := n.(*ast.Ident); ok && resp == nil && def != nil && info.Uses[id] == def {
+				resp = id
+			}
+			return true
+		})
+	}
+	if resp == nil {
+		r.Undecided(rule, core.ShortKey(f.Obj)+" reply variable", w.Pos(f.Decl.Pos()), "no `reply, err := SendSyncRequest(...)` found")
+		return
+	}
+	res := (&flow.Spec{W: w, Depth: 0}).Analyze(f)
+	for _, ex := range res.Exits {
+		if ex.Class == flow.ExitErr {
+			continue
+		}
+		r.Sites++
+		r.Check(ex.St.ExprNil(info, resp) == 2, rule, core.ShortKey(f.Obj)+" "+exitRole(ex, nil)+" : a nil error only with a reply in hand", w.Pos(ex.Pos),
+			"the reply is known non-nil", "this return may carry a nil error although no reply arrived (the reply is not known to be non-nil on this path): the caller takes the branch for registered, runs the business step, and the coordinator knows nothing about it")
+	}
 }
